@@ -757,3 +757,161 @@ RULES.setdefault("C16", []).append(Rule("C16.R7", "the whole buffer is written t
                                         "binary targets receive the complete UTF-8 text"))
 RULES.setdefault("C16", []).append(Rule("C16.R8", "serializer failures propagate (shared with C17.R4)", 2, c17_r4, "F-PATH",
                                         "a destination never silently holds a partial text"))
+
+
+# ===================================================================================== text reaches the stream as produced (C06.R12 = C16.R10)
+PASS_THROUGH_METHODS = {"encode", "decode", "read", "getvalue", "seek", "write", "close", "format"}
+
+
+def text_as_produced(ctx: Ctx, rule):
+    """ProvNSerializer.serialize writes what get_provn() returned: between the producer and stream.write the text may only be
+    encoded.  Any other string operation on it (splitlines/strip/replace/join ...) rewrites content: PROV-N is not line-oriented
+    (a line break, a trailing blank or U+2028 inside a string literal is content)."""
+    res = RuleResult()
+    cls = registry_classes(ctx).get("provn")
+    if not cls:
+        raise AnalysisError("no provn serializer registered")
+    q = ctx.p.lookup_method(cls, "serialize")
+    cl = ctx.helper_closure(q, 2)
+    produced = 0
+    for q2 in cl:
+        fi = ctx.fn(q2)
+        tainted = set()
+        for a in walk_function(fi.node):
+            if isinstance(a, ast.Assign) and len(a.targets) == 1 and isinstance(a.targets[0], ast.Name) and any(isinstance(c, ast.Call) and call_name(c) == "get_provn" for c in ast.walk(a.value)):
+                tainted.add(a.targets[0].id)
+                produced += 1
+        changed = True
+        while changed:
+            changed = False
+            for a in walk_function(fi.node):
+                if isinstance(a, ast.Assign) and len(a.targets) == 1 and isinstance(a.targets[0], ast.Name) and a.targets[0].id not in tainted and any(isinstance(x, ast.Name) and x.id in tainted for x in ast.walk(a.value)):
+                    tainted.add(a.targets[0].id)
+                    changed = True
+        for c in calls_in(fi.node):
+            if isinstance(c.func, ast.Attribute) and isinstance(c.func.value, ast.Name) and c.func.value.id in tainted and c.func.attr not in PASS_THROUGH_METHODS:
+                res.ob("%s: %s rewrites the produced text" % (short(q2), norm(c)[:50]))
+                res.fail(rule.id, "provn-text-rewritten::%s::%s" % (q2, c.func.attr), ctx.loc(q2, c), "%s applies .%s() to the text get_provn() produced before writing it" % (short(q2), c.func.attr),
+                         "a multi-line string value with a trailing blank before a line break (or containing U+2028) is written changed: serialize(format='provn') and get_provn() disagree")
+            if call_name(c) == "join" and any(isinstance(x, ast.Name) and x.id in tainted for a in c.args for x in ast.walk(a)):
+                res.fail(rule.id, "provn-text-rewritten::%s::join" % q2, ctx.loc(q2, c), "%s re-assembles the produced text with join()" % short(q2), "line-wise processing changes string literals that span lines")
+        res.ob("%s: variables holding the produced PROV-N text: %s; only encode/write applied: checked" % (short(q2), sorted(tainted)))
+    if not produced:
+        raise AnalysisError("the provn serializer no longer obtains its text from get_provn()")
+    return res
+
+
+RULES.setdefault("C06", []).append(Rule("C06.R12", "the PROV-N serializer writes the text get_provn() produced, encoded at most", 1, text_as_produced, "F-TAINT",
+                                        "serialize(format='provn') denotes the same document as get_provn()"))
+RULES.setdefault("C16", []).append(Rule("C16.R10", "the PROV-N serializer writes the text get_provn() produced (shared with C06.R12)", 1, text_as_produced, "F-TAINT",
+                                        "every destination kind receives the same text"))
+
+
+# ===================================================================================== C11.R12 the XML reader's parser
+def xml_reader_parser(ctx: Ctx, rule):
+    """The PROV-XML reader takes an element's value from `.text` (the text before the first child node).  That is the whole value only
+    if lxml has resolved entity references while parsing - the default.  A parser built with resolve_entities=False leaves entity
+    nodes in the tree and values are cut at the first reference.  And the parser must see *bytes* for a path source: the encoding of
+    an XML file is declared inside it."""
+    res = RuleResult()
+    cls = registry_classes(ctx).get("xml")
+    q = ctx.p.lookup_method(cls, "deserialize")
+    n = 0
+    for q2 in ctx.helper_closure(q, 2):
+        fi = ctx.fn(q2)
+        for c in calls_in(fi.node):
+            d = dotted(c.func) or ""
+            if d.endswith("XMLParser") or d.endswith("XMLPullParser") or d.endswith("iterparse"):
+                bad = [k for k in c.keywords if k.arg == "resolve_entities" and isinstance(k.value, ast.Constant) and k.value.value is False]
+                n += 1
+                res.ob("%s builds %s: entity references are resolved: %s" % (short(q2), norm(c)[:60], not bad))
+                if bad:
+                    res.fail(rule.id, "entities-unresolved::%s" % q2, ctx.loc(q2, c), "%s parses with resolve_entities=False while values are read from `.text`" % short(q2),
+                             "<!ENTITY org 'Example Org'> ... <prov:label>The &org; team</prov:label> loads as 'The '")
+            if d.endswith(".parse") or d.endswith("fromstring") or d.endswith(".XML"):
+                n += 1
+                res.ob("%s parses with %s" % (short(q2), norm(c)[:50]))
+    if not n:
+        raise AnalysisError("the XML reader's parse call was not found")
+    # path sources reach the readers as bytes
+    dq = M + ".ProvDocument.deserialize"
+    df = ctx.fn(dq)
+    for q2 in ctx.helper_closure(dq, 2):
+        for c in calls_in(ctx.fn(q2).node):
+            if call_name(c) == "open" and (dotted(c.func) in ("open", "io.open", "codecs.open")):
+                m = c.args[1] if len(c.args) > 1 else next((k.value for k in c.keywords if k.arg == "mode"), None)
+                mode = m.value if isinstance(m, ast.Constant) else "r"
+                ok = "b" in str(mode)
+                res.ob("%s: %s hands the readers bytes: %s" % (short(q2), norm(c)[:50], ok))
+                if not ok:
+                    res.fail(rule.id, "path-source-decoded::%s" % norm(c)[:40], ctx.loc(q2, c), "%s decodes a path source itself (%s): an XML file declares its own encoding" % (short(q2), norm(c)[:50]),
+                             "a PROV-XML file stored as ISO-8859-1 or UTF-16 loads from a binary stream but raises UnicodeDecodeError when loaded by path")
+    return res
+
+
+RULES.setdefault("C11", []).append(Rule("C11.R12", "the XML reader sees entity-resolved text and, for a path source, bytes", 2, xml_reader_parser, "F-NULL",
+                                        "foreign PROV-XML with internal entities or a non-UTF-8 encoding loads to the same document by every entry point"))
+
+
+# ===================================================================================== C17.R6 the temporary file: unique, and movable to the destination
+SAME_FS_ONLY = {"os.replace", "os.rename", "os.renames", "os.link"}
+TEMP_MAKERS = {"tempfile.mkstemp", "tempfile.NamedTemporaryFile", "tempfile.mkdtemp", "tempfile.TemporaryDirectory", "tempfile.mktemp"}
+
+
+def c17_r6(ctx: Ctx, rule):
+    """(a) What is opened for writing before the commit is a name made by the tempfile module (unique, never an existing neighbour
+    such as <destination>.tmp).  (b) A commit primitive that cannot cross file systems (os.replace/os.rename) is only used when the
+    temporary file was created next to the destination (mkstemp(dir=<directory of the destination>))."""
+    res = RuleResult()
+    q, fi, g, dest, commits = serialize_path_branch(ctx)
+    makers = []
+    for q2 in ctx.helper_closure(q, 2):
+        f2 = ctx.fn(q2)
+        for c in calls_in(f2.node):
+            r = ctx.p.resolve_dotted(f2.module, c.func) if dotted(c.func) else None
+            origin = r[1] if r and r[0] == "ext" else (dotted(c.func) or "")
+            if origin in TEMP_MAKERS:
+                makers.append((q2, c, origin))
+    res.ob("temporary names are made by: %s" % ([m[2] for m in makers] or "NOTHING from the tempfile module"))
+    # (a) every name opened for writing / every commit source derives from a tempfile result
+    temp_names = set()
+    for q2, c, origin in makers:
+        f2 = ctx.fn(q2)
+        for a in walk_function(f2.node):
+            if isinstance(a, ast.Assign) and a.value is c:
+                for t in a.targets:
+                    for x in ast.walk(t):
+                        if isinstance(x, ast.Name):
+                            temp_names.add(x.id)
+            if isinstance(a, ast.With):
+                for it in a.items:
+                    if it.context_expr is c and it.optional_vars is not None:
+                        for x in ast.walk(it.optional_vars):
+                            if isinstance(x, ast.Name):
+                                temp_names.add(x.id)
+    for c in commits:
+        src = c.args[0]
+        rs = resolve_local(fi.node, src)
+        ok = any(isinstance(x, ast.Name) and x.id in temp_names for x in ast.walk(src)) or any(isinstance(x, ast.Name) and x.id in temp_names for x in ast.walk(rs))
+        res.ob("commit source %s is a name made by tempfile: %s" % (norm(src), ok))
+        if not ok:
+            res.fail(rule.id, "temp-name-not-unique::%s" % norm(src)[:40], ctx.loc(q, c), "the file moved over the destination (%s = %s) is not a name made by the tempfile module" % (norm(src), norm(rs)[:40]),
+                     "a neighbour file that happens to be called <destination>.tmp is truncated and renamed away; a failed write leaves that file behind")
+        d = dotted(c.func) or ""
+        r = ctx.p.resolve_dotted(fi.module, c.func)
+        origin = r[1] if r and r[0] == "ext" else d
+        if origin in SAME_FS_ONLY:
+            near = [m for m in makers if any(k.arg == "dir" for k in m[1].keywords)]
+            res.ob("commit %s cannot cross file systems; the temporary file is created next to the destination (dir=...): %s" % (origin, bool(near)))
+            if not near:
+                res.fail(rule.id, "commit-cannot-cross-filesystems::%s" % origin, ctx.loc(q, c), "%s moves a file created in the system temporary directory: it fails when the destination is on another file system" % origin,
+                         "TMPDIR on tmpfs, destination on disk: serialize(path) raises OSError(EXDEV), nothing is written and the complete temporary file is left behind")
+    if not commits:
+        res.ob("no commit call (reported by C17.R1/R3)", nontrivial=False)
+    return res
+
+
+RULES.setdefault("C17", []).append(Rule("C17.R6", "the staged file has a unique tempfile name and the commit primitive can reach the destination from where it was created", 2, c17_r6, "F-PATH",
+                                        "nothing but the named file changes, on whatever file system it lives"))
+RULES.setdefault("C16", []).append(Rule("C16.R11", "a path destination is written wherever it lives (shared with C17.R6)", 2, c17_r6, "F-PATH",
+                                        "the path destination kind works like the stream kinds"))
